@@ -89,6 +89,33 @@ var witnesses = []witness{
 		{Kind: fw.OpUpdate, Path: "/a", E: file(1, mchunk(50, 0, 20), ch(3, 2))},
 		{Kind: fw.OpDelete, Path: "/a", Data: true},
 	}},
+	// chunk references have two wire encodings; the garbage of an update must not depend on them.
+	// "chmod" with the entry as ListEntries shows it (fid objects only): nothing may be scheduled
+	{"enc-listed-update-keeps", nil, []fw.Op{
+		{Kind: fw.OpCreate, Path: "/d/a", E: file(1, ch(1, 0), ch(2, 1)), Enc: []byte{fw.EncStr, fw.EncStr}},
+		{Kind: fw.OpWrite, Path: "/d/a", Chunks: []fw.Chunk{ch(1, 0), ch(2, 1)}, Mtime: 2, Via: false, Listed: true},
+		{Kind: fw.OpWrite, Path: "/d/a", Chunks: []fw.Chunk{ch(2, 1), ch(3, 0)}, Mtime: 3, Via: false, Listed: true},
+		{Kind: fw.OpWrite, Path: "/d/a", Chunks: []fw.Chunk{ch(2, 1), ch(4, 0)}, Mtime: 4, Via: true, Listed: true},
+		{Kind: fw.OpLink, Path: "/d/a", Path2: "/b", NewId: 1, Listed: true},
+	}},
+	// the same through the plain gRPC requests, every combination old encoding x new encoding, one chunk kept and one dropped
+	{"enc-update-all-forms", nil, []fw.Op{
+		{Kind: fw.OpCreate, Path: "/a", E: file(1, ch(1, 0), ch(2, 1), ch(3, 2)), Enc: []byte{fw.EncStr, fw.EncFid, fw.EncBoth}},
+		{Kind: fw.OpUpdate, Path: "/a", E: file(2, ch(1, 0), ch(2, 1), ch(3, 2)), Enc: []byte{fw.EncFid, fw.EncStr, fw.EncFid}},
+		{Kind: fw.OpUpdate, Path: "/a", E: file(3, ch(1, 0), ch(2, 1), ch(3, 2)), Enc: []byte{fw.EncBoth, fw.EncBoth, fw.EncStr}},
+		{Kind: fw.OpUpdate, Path: "/a", E: file(4, ch(2, 1), ch(3, 2), ch(4, 0)), Enc: []byte{fw.EncFid, fw.EncFid, fw.EncFid}},
+		{Kind: fw.OpCreate, Path: "/a", E: file(5, ch(3, 2), ch(4, 0), ch(5, 1)), Enc: []byte{fw.EncFid, fw.EncStr, fw.EncFid}},
+		{Kind: fw.OpAppend, Path: "/a", Chunks: []fw.Chunk{{Key: 6, Size: 5, Mtime: 6}, {Key: 7, Size: 5, Mtime: 7}}, Enc: []byte{fw.EncFid, fw.EncStr}},
+		{Kind: fw.OpDelete, Path: "/a", Data: true},
+	}},
+	// the one place where the encoding is visible: UpdateEntry's EqualEntry shortcut compares the chunk messages
+	// field by field, so an unchanged entry sent with string-only references is not recognised as unchanged and
+	// the chunk of the request that is covered by a newer one is scheduled (both requests are harmless)
+	{"enc-equal-entry-shortcut", nil, []fw.Op{
+		{Kind: fw.OpCreate, Path: "/a", E: file(1, ch(1, 0), ch(2, 1))},
+		{Kind: fw.OpUpdate, Path: "/a", E: fw.Ent{Perm: 0644, Uid: 1, Mtime: 1, Crtime: 1, Chunks: []fw.Chunk{{Key: 9, Off: 0, Size: 10, Mtime: 0}, ch(1, 0), ch(2, 1)}}},
+		{Kind: fw.OpUpdate, Path: "/a", E: fw.Ent{Perm: 0644, Uid: 1, Mtime: 1, Crtime: 1, Chunks: []fw.Chunk{{Key: 9, Off: 0, Size: 10, Mtime: 0}, ch(1, 0), ch(2, 1)}}, Enc: []byte{fw.EncStr, fw.EncStr, fw.EncStr}},
+	}},
 }
 
 // ---------- the bounded-exhaustive stream ----------
@@ -152,6 +179,19 @@ var alphabet = []func(g *fw.Gen) fw.Op{
 	func(g *fw.Gen) fw.Op {
 		return fw.Op{Kind: fw.OpAppend, Path: "/a", Chunks: []fw.Chunk{{Key: g.Key(), Size: 5, Mtime: g.Mt()}}}
 	},
+	// "touch": UpdateEntry with /a exactly as it is shown, plus one chunk that its first chunk covers
+	func(g *fw.Gen) fw.Op {
+		cur, _ := g.ViewAt("/a")
+		e := cur
+		e.Chunks = append([]fw.Chunk{}, cur.Chunks...)
+		if len(cur.Chunks) > 0 && !cur.Chunks[0].Man {
+			e.Chunks = append([]fw.Chunk{{Key: g.Key(), Off: cur.Chunks[0].Off, Size: cur.Chunks[0].Size, Mtime: 0}}, e.Chunks...)
+		}
+		if cur.Mtime == fw.TimeNow || cur.Crtime == fw.TimeNow {
+			e.Mtime = g.NextTag() // a time taken inside the filer cannot be sent back unchanged: a real change
+		}
+		return fw.Op{Kind: fw.OpUpdate, Path: "/a", E: e}
+	},
 }
 
 // exhaustive: the letters of history number e (all of length 2 first, then all of length 3); nil beyond
@@ -175,8 +215,9 @@ func main() {
 	defer w.Close()
 	out.Rule = "case = history from the empty filer; after every op: error class, scheduled chunk ids (queue + BatchDelete), raw store/KV dump, FindEntry views, referenced ids. " +
 		"The first cases of shard 0 are the fixed witnesses of the known findings (k=0..4) and two clean sequences; every third case belongs to the bounded-exhaustive stream: history number (shard*n+i)/3 of " +
-		"create /a, create /d/a followed by every 2-letter (then every 3-letter) word over 21 state-dependent operations on /a, /b, /c, /d, /d/a, /d/b, /d/c (upload, flush keeping/dropping/wrapping the chunks through CreateEntry and UpdateEntry, append, link x3, delete +-data, recursive delete, rename x3, unlink x2) - the quick tier (1600 cases) covers all 441 words of length 2, the thorough tier all 9261 of length 3; the others are random histories of 3..12 ops over the paths " +
+		"create /a, create /d/a followed by every 2-letter (then every 3-letter) word over 22 state-dependent operations on /a, /b, /c, /d, /d/a, /d/b, /d/c (upload, flush keeping/dropping/wrapping the chunks through CreateEntry and UpdateEntry, append, link x3, delete +-data, recursive delete, rename x3, unlink x2, UpdateEntry of the unchanged entry plus a covered chunk) - the quick tier (1600 cases) covers all 484 words of length 2, the thorough tier all 10648 of length 3;  the others are random histories of 3..12 ops over the paths " +
 		"{/a,/b,/c,/d,/e,/d/a,/d/b,/d/c,/e/a,/e/b}: create 20%, update 10%, append 8%, delete 14% (data 70%, recursive 60%), rename 14%, link 12%, write 12%, unlink 10%; " +
+		"the chunk references of 60% (exhaustive stream: 75%) of the chunk-carrying operations are re-encoded: all fid-only / all string-only / both / mixed per chunk id; a write or a link then works on the entry of the real ListEntries answer (retained chunks sent as listed: fid objects only) half of the time; 1 in 2 updates of an existing plain file sends the entry unchanged (+ a covered chunk); " +
 		"paths are picked among existing entries 45..92% of the time; chunk lists retain/drop chunks of the current entry, add 0..3 fresh chunks (25% covering a retained one), " +
 		"wrap chunks into a fresh manifest (20%), re-wrap or unwrap a dropped manifest; every 6th case breaks a client assumption in ~15% of its ops (shared chunk id, raw link id, " +
 		"unreadable manifest, empty chunk, used link id) and is judged on correspondence only. non-trivial = assumptions hold, some op succeeded and some op scheduled a chunk; distinct = canonical op list"
@@ -186,7 +227,7 @@ func main() {
 	for i := 0; i < out.N; i++ {
 		r := root.Fork()
 		w.Reset()
-		var ops, impl, canon []string
+		var ops, impl, encs, canon []string
 		kind := "random"
 		okOps, sched := 0, 0
 		record := func(o fw.Op) fw.Obs {
@@ -196,7 +237,14 @@ func main() {
 			}
 			ops = append(ops, fw.CoqOp(o))
 			impl = append(impl, fw.CoqObs(b))
-			canon = append(canon, fw.CanonOp(o))
+			encs = append(encs, fw.CoqSent(b))
+			canon = append(canon, fw.CanonOp(o)+fw.CanonEnc(o))
+			for _, c := range b.Sent {
+				out.Count("enc:"+[]string{"both", "fid-only", "string-only"}[c.Enc], 1)
+			}
+			if o.Listed {
+				out.Count("entry-from:ListEntries", 1)
+			}
 			out.Count("op:"+fw.OpNames[o.Kind], 1)
 			out.Count("err:"+b.Class, 1)
 			if b.Class == "OK" {
@@ -217,14 +265,16 @@ func main() {
 		} else if letters := exhaustive((shard*out.N + i) / 3); i%3 == 1 && letters != nil {
 			kind = "exhaustive"
 			g := fw.NewGen(w, r, paths)
-			g.Last = record(alphabet[0](g))
-			g.Last = record(fw.Op{Kind: fw.OpCreate, Path: "/d/a", E: file(int(g.NextTag()), g.FreshAfter(nil))})
+			g.EncPct = 75
+			g.Last = record(g.Encode(alphabet[0](g)))
+			g.Last = record(g.Encode(fw.Op{Kind: fw.OpCreate, Path: "/d/a", E: file(int(g.NextTag()), g.FreshAfter(nil))}))
 			for _, l := range letters {
-				g.Last = record(alphabet[l](g))
+				g.Last = record(g.Encode(alphabet[l](g)))
 			}
 		} else {
 			g := fw.NewGen(w, r, paths)
 			g.NextKey = 1
+			g.EncPct = 60
 			if i%6 == 5 {
 				g.MalformedPct = 15
 				kind = "malformed"
@@ -233,9 +283,10 @@ func main() {
 			for j := 0; j < n; j++ {
 				g.Last = record(g.Op(fw.DefaultMix))
 			}
+			out.Count("update:unchanged-entry", g.Touches)
 		}
 		out.Count(fmt.Sprintf("scheduled:%02d", min(sched, 20)), 1)
-		term := fmt.Sprintf("{| c_env := %s; ops := %s; impl := %s |}", w.CoqEnv(), hx.List(ops), hx.List(impl))
+		term := fmt.Sprintf("{| c_env := %s; ops := %s; encs := %s; impl := %s |}", w.CoqEnv(), hx.List(ops), hx.List(encs), hx.List(impl))
 		out.Add(term, strings.Join(canon, ";"), okOps > 0 && sched > 0, kind)
 	}
 	out.Write()
